@@ -128,6 +128,7 @@ type Exec struct {
 	curRetTag  string
 	replayOff  bool
 	deferIdx   map[*ast.DeferStmt]int
+	inlineStack []*inlineFrame
 	discardCall *ast.CallExpr // the call of the expression statement being executed (its results are discarded)
 	closureVar map[types.Object]*FuncInfo
 	aliasHook  func(*State)
@@ -772,6 +773,29 @@ func (x *Exec) execStmt(s *State, stmt ast.Stmt, entry *State) outcomes {
 		res.normal = x.merge(res.normal)
 		return res
 	case *ast.ReturnStmt:
+		if n := len(x.inlineStack); n > 0 {
+			// return from a function that is being executed in place
+			fr := x.inlineStack[n-1]
+			var vals []*Term
+			if len(st.Results) > 0 {
+				vals = x.evalRHS(s, st.Results, len(fr.resultVars))
+				if len(st.Results) == len(fr.resultVars) {
+					for i, re := range st.Results {
+						if id, ok := ast.Unparen(re).(*ast.Ident); ok {
+							if _, isNil := x.info.Uses[id].(*types.Nil); isNil {
+								vals[i] = x.u.zero(fr.resultSorts[i])
+							}
+						}
+					}
+				}
+			} else {
+				for _, rv := range fr.resultVars {
+					vals = append(vals, s.vars[rv])
+				}
+			}
+			fr.rets = append(fr.rets, inlineRet{st: s, vals: vals})
+			return outcomes{}
+		}
 		var vals []*Term
 		if len(st.Results) > 0 {
 			vals = x.evalRHS(s, st.Results, len(x.resultVars))
@@ -1707,7 +1731,9 @@ func (x *Exec) checkFrame(s *State, base *State, assigns []*SExpr, has bool, kin
 		} else {
 			old = x.initOf(name, cur.Sort)
 		}
-		if cur == old || name == "alloc" || strings.HasPrefix(name, "defer$") {
+		if cur == old || name == "alloc" || name == "stdout" || strings.HasPrefix(name, "defer$") {
+			// stdout: no property constrains what is printed besides the summary text (a function result); an added
+			// diagnostic print must not be reported as a frame violation
 			continue
 		}
 		// boxed locals live in P.* heaps at fresh refs: covered by the allocation rule below
